@@ -8,6 +8,8 @@ struct Gen {
     Rng &r;
     int boost = 0;  // 1 in the thorough tier: larger inputs (more allocations, deeper compactions)
     explicit Gen(Rng &rng) : r(rng) {}
+    LatLng nearIcosaEdge();          // a point within 1e-9 .. 1e-3 rad of an icosahedron edge, mostly near its midpoint
+    Op primerFor(const Op &op);      // same function, "nearby" arguments: what a thread did just before
 
     // --- cells
     H3Index randCell(int res);
